@@ -219,7 +219,7 @@ def real_case(workdir, case):
         base = tr.next_index
         for name, o, b, faults in seq:
             m = tr.mark()
-            tr.set_faults([Fault(index=base + k, exc=exc_cls) for k in faults])
+            tr.set_faults([Fault(index=base + k, exc=exc_cls, when=case.get('when')) for k in faults])
             if name == 'disconnect':
                 try: E.db.disconnect(); e = None
                 except BaseException as e_: e = e_
@@ -352,12 +352,12 @@ def compare(ctx, case, real, model, foreign):
 
 def case_json(case):
     return {'shape': case['shape'], 'pool': case['pool'], 'faults': list(case['faults']), 'exc_class': case['exc_class'].__name__,
-            'reconnect': case['reconnect'], 'hooks': case.get('hooks', 0)}
+            'reconnect': case['reconnect'], 'hooks': case.get('hooks', 0), 'when': case.get('when')}
 
 
 def case_key(case):
     return 'shape=%s;pool=%s;faults=%s;reconnect=%d%s' % (case['shape'], case['pool'], ','.join(map(str, case['faults'])), case['reconnect'],
-                                                      ';hooks=%d' % case['hooks'] if case.get('hooks') else '')
+                                                      (';hooks=%d' % case['hooks'] if case.get('hooks') else '') + (';after' if case.get('when') == 'after' else ''))
 
 
 def oracle(ctx, case, real):
@@ -427,8 +427,8 @@ def baseline_len(ctx, shape, pool, reconnect, hooks=0):
 def generate_cases(ctx):
     rng = ctx.rng
     cases = []
-    def add(shape, pool, faults, exc=None, reconnect=False, hooks=0):
-        cases.append({'id': len(cases), 'shape': shape, 'pool': pool, 'faults': list(faults), 'reconnect': reconnect, 'hooks': hooks,
+    def add(shape, pool, faults, exc=None, reconnect=False, hooks=0, when=None):
+        cases.append({'id': len(cases), 'shape': shape, 'pool': pool, 'faults': list(faults), 'reconnect': reconnect, 'hooks': hooks, 'when': when,
                       'exc_class': exc or EXC_CLASSES[len(cases) % len(EXC_CLASSES)]})
     shapes = list(SHAPES)
     for shape in shapes:
@@ -453,7 +453,14 @@ def generate_cases(ctx):
             n, off = baseline_len(ctx, shape, pool, True)
             for k in range(n + 4): add(shape, pool, [off + k], reconnect=True)
             pairs = [(a, b) for a in range(n + 2) for b in range(a + 1, min(a + 7, n + 8))]
-            for a, b in (pairs if ctx.thorough else rng.sample(pairs, min(len(pairs), 6))): add(shape, pool, [off + a, off + b], reconnect=True)
+            # every adjacent pair (the reconnect's own drop/connect fails right after the failure that triggered it) + a sample
+            chosen = pairs if ctx.thorough else sorted(set([(a, a + 1) for a in range(n + 2)] + rng.sample(pairs, min(len(pairs), 6))))
+            for a, b in chosen: add(shape, pool, [off + a, off + b], reconnect=True)
+    # the call is PERFORMED and then reported as failed (e.g. BEGIN really opened the transaction, COMMIT really committed)
+    for shape in (shapes if ctx.thorough else CORE_SHAPES + ['raw_write', 'body_exc']):
+        for pool in (['fresh', 'warm', 'dropped'] if ctx.thorough else ['warm']):
+            n, off = baseline_len(ctx, shape, pool, False)
+            for k in range(1 if pool != 'warm' else 0, n + 2): add(shape, pool, [off + k], when='after')     # (not the connect itself)
     # db.disconnect() before the session: its close() fails
     for shape in (shapes if ctx.thorough else CORE_SHAPES):
         n, off = baseline_len(ctx, shape, 'disconnected', False)
@@ -508,11 +515,12 @@ def check_cases(ctx, cases, reals):
         if 'crash' in r:
             raise RuntimeError('harness crashed on %r:\n%s' % (cj, r['crash']))
         foreign = c['exc_class'] in FOREIGN_EXC
-        ctx.case([cj['shape'], cj['pool'], cj['faults'], cj['reconnect'], cj['hooks']], nontrivial=True,
+        ctx.case([cj['shape'], cj['pool'], cj['faults'], cj['reconnect'], cj['hooks'], cj['when']], nontrivial=True,
                  kind='%s%s' % (c['shape'], ':reconnect' if c['reconnect'] else ''))
         ctx.count('faults:%d' % len(c['faults']))
         ctx.count('pool:' + c['pool'])
         if c.get('hooks'): ctx.count('on_connect-hooks:%d' % c['hooks'])
+        if c.get('when') == 'after': ctx.count('fault-after-the-call')
         ctx.count('exc:' + c['exc_class'].__name__)
         problems = oracle(ctx, c, r)
         if not r['blocked']:
@@ -752,6 +760,13 @@ def pool_contract(ctx, workdir):
         model = {'outcome': m.get('outcome'), 'poolCon': m.get('poolCon'), 'closed': sorted(m.get('closed', [])), 'pool.pid unchanged': True}
         if real != model:
             ctx.divergence('Pool.%s(%s) behaves differently from the model' % (r['call'], inp['connection']), inp, model=model, impl=real)
+        # the property on this concrete call: the connection the pool held is still pooled, or was closed exactly once
+        n_closed = r['closed'].count(r['pooled'])
+        if not ((r['poolCon'] == r['pooled'] and n_closed == 0) or (r['poolCon'] != r['pooled'] and n_closed == 1)):
+            ctx.violation('after Pool.%s(%s) the connection the pool held is neither pooled nor closed exactly once (pool.con=%r, close() calls=%d)'
+                          % (r['call'], inp['connection'], r['poolCon'], n_closed), inp, observed=real,
+                          expected='AssertionError, pool unchanged' if r['foreign'] else 'pooled and idle, or closed once',
+                          key='pool-api:%s:%s' % (r['call'], 'foreign' if r['foreign'] else 'pooled'))
 
 
 def run(ctx):
@@ -783,7 +798,7 @@ def replay(ctx, data):
     try:
         probe_init_guard(ctx, workdir)
         exc = getattr(sqlite3, inp.get('exc_class', 'OperationalError'), None) or {'MemoryError': MemoryError, 'KeyboardInterrupt': KeyboardInterrupt}[inp['exc_class']]
-        case = {'id': 0, 'shape': inp['shape'], 'pool': inp['pool'], 'faults': inp['faults'], 'reconnect': inp.get('reconnect', False), 'hooks': inp.get('hooks', 0), 'exc_class': exc}
+        case = {'id': 0, 'shape': inp['shape'], 'pool': inp['pool'], 'faults': inp['faults'], 'reconnect': inp.get('reconnect', False), 'hooks': inp.get('hooks', 0), 'when': inp.get('when'), 'exc_class': exc}
         reals = {0: real_case(workdir, case)}
         check_cases(ctx, [case], reals)
     finally:
